@@ -39,6 +39,9 @@
 //	         Content-Length | j the same, chunked
 //	  errtext (optional digit) text of the modifiers' errors: 0 plain | 1 quotes and backslashes |
 //	         2 a *martian.MultiError of two errors (joined by a newline) | 3 control bytes | 4 5000 bytes
+//	         and KIND of the error value: 5 bare io.EOF | 6 io.ErrUnexpectedEOF | 7 io.ErrClosedPipe |
+//	         8 a net.Error with Timeout() and Temporary() true | 9 an error wrapping io.EOF whose text is
+//	         that of the proxy's own "closing connection" error
 //
 // OUT tokens (request r = position of the request token in the case, all
 // connections counted; c / s = context / session ID renamed to
@@ -103,7 +106,7 @@ func parseTok(t string) (reqTok, bool) {
 	for len(t) > 5 {
 		c := t[len(t)-1]
 		switch {
-		case c >= '0' && c <= '4':
+		case c >= '0' && c <= '9':
 			et = c
 		case strings.ContainsRune("lhrj", rune(c)) && t[0] == 'g':
 			body = c
@@ -141,6 +144,16 @@ func scriptedErr(side string, kind byte) error {
 		return errors.New(side + " ctl\x01\x7f\ttab\r\nX-Injected: 1")
 	case '4':
 		return errors.New(side + " " + strings.Repeat("x", 5000))
+	case '5':
+		return io.EOF
+	case '6':
+		return io.ErrUnexpectedEOF
+	case '7':
+		return io.ErrClosedPipe
+	case '8':
+		return timeoutErr{}
+	case '9':
+		return fmt.Errorf("closing connection: %w", io.EOF)
 	}
 	return errors.New(side + "-error")
 }
@@ -1031,7 +1044,7 @@ func randTok(r *hx.RNG, mode byte) string {
 	}
 	t := string([]byte{mode, q, rt, s, cl})
 	if strings.ContainsRune("EABD", rune(q)) || strings.ContainsRune("EA", rune(s)) {
-		t += string(rune('0' + r.Intn(5)))
+		t += string(rune('0' + r.Intn(10)))
 	}
 	if mode == 'g' && r.Chance(1, 4) {
 		t += string("lhrj"[r.Intn(4)])
@@ -1082,7 +1095,7 @@ func main() {
 			in = append([]string(nil), in...)
 			for i, t := range in {
 				if len(t) == 5 && (strings.ContainsRune("EABD", rune(t[1])) || strings.ContainsRune("EA", rune(t[3]))) {
-					in[i] = t + string(rune('0'+(n+i)%5))
+					in[i] = t + string(rune('0'+(n+i)%10))
 				}
 			}
 		}
@@ -1101,7 +1114,7 @@ func main() {
 				nreq++
 				modes[t[0]] = true
 				if len(t) > 5 && strings.ContainsAny(t[5:], "lhrj") {
-					cfg.Count("body=" + strings.Trim(t[5:], "01234"))
+					cfg.Count("body=" + strings.Trim(t[5:], "0123456789"))
 				}
 				cfg.Count("reqmod=" + string(t[1]))
 				cfg.Count("resmod=" + string(t[3]))
@@ -1178,7 +1191,7 @@ func main() {
 	}
 	//    every error text for request- and response-side errors, scripted and real upstream,
 	//    plain / blind CONNECT / MITM CONNECT / inside the MITM tunnel
-	for k := '0'; k <= '4'; k++ {
+	for k := '0'; k <= '9'; k++ {
 		for _, base := range [][]string{
 			{"gEOEk"}, {"gEREk"}, {"gERPk", "gPRPk"}, {"gBRPk"}, {"gEQEk"}, {"gAOPk"}, {"gPRAk"}, {"gEFEk"},
 			{"bEOEk"}, {"bEFEk", "gERPk"}, {"mEOEk", "gEREk", "gEOEk"},
